@@ -31,11 +31,11 @@ def _adapters(db_api):
     A['workflow_definition'] = dict(
         create=lambda n, s, extra: db_api.create_workflow_definition(dict(vals_common(n, s), definition=WF_TEXT, spec={}, namespace='', **extra)),
         get=lambda row: db_api.get_workflow_definition(row['id']), get_by_name=lambda row: db_api.get_workflow_definition(row['name']),
-        list=lambda: db_api.get_workflow_definitions(), update=lambda row: db_api.update_workflow_definition(row['id'], {'definition': WF_TEXT + '#x'}),
+        list=lambda: db_api.get_workflow_definitions(), update=lambda row: db_api.update_workflow_definition(row['id'], {'definition': WF_TEXT + '#x', 'scope': row['scope']}),
         delete=lambda row: db_api.delete_workflow_definition(row['id']), table='workflow_definitions_v2', field='definition')
     A['workbook'] = dict(
         create=lambda n, s, extra: db_api.create_workbook(dict(vals_common(n, s), definition='wb', spec={}, tags=[], namespace='', **extra)),
-        get=lambda row: db_api.get_workbook(row['name']), get_by_name=lambda row: db_api.get_workbook(row['name']),
+        get=lambda row: db_api.get_workbook(row['name'], ''), get_by_name=lambda row: db_api.load_workbook(row['name'], ''),
         list=lambda: db_api.get_workbooks(), update=lambda row: db_api.update_workbook(row['name'], {'definition': 'wb#x'}),
         delete=lambda row: db_api.delete_workbook(row['name']), table='workbooks_v2', field='definition')
     A['action_definition'] = dict(
@@ -77,12 +77,12 @@ def _adapters(db_api):
         list=lambda: db_api.get_event_triggers(), update=lambda row: db_api.update_event_trigger(row['id'], {'topic': 't#x'}),
         delete=lambda row: db_api.delete_event_trigger(row['id']), table='event_triggers_v2', field='topic')
     A['code_source'] = dict(
-        create=lambda n, s, extra: db_api.create_code_source(dict(vals_common(n, s), content='c', version=1, **extra)),
+        create=lambda n, s, extra: db_api.create_code_source(dict(vals_common(n, s), content='c', version=1, namespace='', **extra)),
         get=lambda row: db_api.get_code_source(row['id']), get_by_name=lambda row: db_api.get_code_source(row['name']),
         list=lambda: db_api.get_code_sources(), update=lambda row: db_api.update_code_source(row['id'], {'content': 'c#x'}),
         delete=lambda row: db_api.delete_code_source(row['id']), table='code_sources', field='content')
     A['dynamic_action_definition'] = dict(
-        create=lambda n, s, extra: db_api.create_dynamic_action_definition(dict(vals_common(n, s), class_name='C', **extra)),
+        create=lambda n, s, extra: db_api.create_dynamic_action_definition(dict(vals_common(n, s), class_name='C', namespace='', **extra)),
         get=lambda row: db_api.get_dynamic_action_definition(row['id']), get_by_name=lambda row: db_api.get_dynamic_action_definition(row['name']),
         list=lambda: db_api.get_dynamic_action_definitions(), update=lambda row: db_api.update_dynamic_action_definition(row['id'], {'class_name': 'C#x'}),
         delete=lambda row: db_api.delete_dynamic_action_definition(row['id']), table='dynamic_action_definitions', field='class_name')
@@ -97,16 +97,21 @@ def run_cases():
     A = _adapters(db_api)
     recs = []
     problems = []
-    proj = {'A': 'proj-A', 'B': 'proj-B'}
+    proj = {'A': 'proj-A', 'B': 'proj-B', 'C': 'proj-C'}
     for t in TYPES:
         ad = A[t]
-        for owner, scope, member, actor, admin, op in itertools.product(['A', 'B'], ['private', 'public'],
-                                                                        ['none', 'pending', 'accepted', 'rejected'],
-                                                                        ['A', 'B'], [False, True], OPS):
+        for owner, scope, member, mholder, actor, admin, op in itertools.product(['A', 'B'], ['private', 'public'],
+                                                                                 ['none', 'pending', 'accepted', 'rejected'],
+                                                                                 ['none', 'actor', 'third'],
+                                                                                 ['A', 'B'], [False, True], OPS):
             if t != 'workflow_definition' and member != 'none':
+                continue
+            if (member == 'none') != (mholder == 'none'):
                 continue
             if member != 'none' and actor == owner:
                 continue
+            # the project that holds the membership: the acting project, or a third project (the actor has none)
+            holder = proj[actor] if mholder == 'actor' else proj['C']
             if op == 'get_by_name' and ad['get_by_name'] is None:
                 continue
             mdb.wipe()
@@ -118,7 +123,7 @@ def run_cases():
                 if t == 'code_source':
                     extra = {}
                 if t == 'dynamic_action_definition':
-                    cs = db_api.create_code_source({'name': 'cs', 'content': 'c', 'version': 1, 'scope': scope})
+                    cs = db_api.create_code_source({'name': 'cs', 'content': 'c', 'version': 1, 'scope': scope, 'namespace': ''})
                     extra = {'code_source_id': cs.id, 'code_source_name': 'cs'}
                 if t in ('cron_trigger', 'event_trigger'):
                     wfd = db_api.create_workflow_definition({'name': 'w', 'definition': WF_TEXT, 'spec': {}, 'scope': scope})
@@ -126,12 +131,12 @@ def run_cases():
                 with db_api.transaction():
                     row = ad['create'](name, scope, extra)
                     rid = row.id
-                rowd = {'id': rid, 'name': name}
+                rowd = {'id': rid, 'name': name, 'scope': scope}
                 if member != 'none':
-                    db_api.create_resource_member({'resource_id': rid, 'resource_type': 'workflow', 'member_id': proj[actor]})
+                    db_api.create_resource_member({'resource_id': rid, 'resource_type': 'workflow', 'member_id': holder})
                     if member != 'pending':
-                        mdb.set_ctx(mdb.ctx(proj[actor]))
-                        db_api.update_resource_member(rid, 'workflow', proj[actor], {'status': member})
+                        mdb.set_ctx(mdb.ctx(holder))
+                        db_api.update_resource_member(rid, 'workflow', holder, {'status': member})
             except Exception as e:
                 problems.append('setup %s %s %s %s: %r' % (t, owner, scope, member, e))
                 mdb.set_ctx(None)
@@ -179,7 +184,7 @@ def run_cases():
                 outcome = 'changed' if changed else 'unchanged'
             elif op == 'delete' and outcome == 'call_ok':
                 outcome = 'deleted' if not exists else 'unchanged'
-            recs.append(dict(type=t, owner=owner, scope=scope, member=member, actor=actor, admin=admin, op=op, outcome=outcome,
+            recs.append(dict(type=t, owner=owner, scope=scope, member=member, mholder=mholder, actor=actor, admin=admin, op=op, outcome=outcome,
                              changed=changed, exists=exists))
     return recs, problems
 
@@ -224,9 +229,11 @@ def run(tier):
         for nm, okv in zip(names, cases[i + 1]):
             if not okv:
                 sig = {'clause': nm, 'type': x['type'], 'op': x['op'], 'scope': x['scope'], 'member': x['member']}
-                verdict.violation(sig, '%s: project %s (admin=%s) performed %s on the %s %s of project %s (membership %s): outcome %s, '
+                if x.get('mholder') == 'third':
+                    sig['mholder'] = 'third'
+                verdict.violation(sig, '%s: project %s (admin=%s) performed %s on the %s %s of project %s (membership %s held by %s): outcome %s, '
                                        'row changed=%s, row exists=%s'
-                                  % (nm, x['actor'], x['admin'], x['op'], x['scope'], x['type'], x['owner'], x['member'], x['outcome'],
+                                  % (nm, x['actor'], x['admin'], x['op'], x['scope'], x['type'], x['owner'], x['member'], x['mholder'], x['outcome'],
                                      x['changed'], x['exists']), x)
         if all(cases[i + 1]) and (i + 1) not in acc:
             div += 1
@@ -237,7 +244,7 @@ def run(tier):
         'states': r.distinct + rt.distinct, 'transitions': r.generated + rt.generated,
         'traces_validated_against_impl': len(recs), 'traces_accepted': len(acc), 'divergences': div,
         'evaluations': len(recs), 'distinct_nontrivial': len(nontrivial),
-        'rule': 'full product resource type x owner x scope x membership status x actor project x admin x operation '
+        'rule': 'full product resource type x owner x scope x membership status x membership holder (the acting project | a third project) x actor project x admin x operation '
                 '(get by id, get by name, list, update, delete, create naming another project) on real rows through the real db api; '
                 'non-trivial = distinct (type, scope, membership, operation) with a foreign non-admin actor',
         'exhaustive': True, 'samples': [x for x in recs if x['actor'] != x['owner'] and not x['admin']][:3],
